@@ -6,4 +6,6 @@ git -C /repo status --short | grep -q . && { echo "/repo not clean"; exit 2; }
 git -C /repo apply "/verif/$dir/patch.diff" || { echo "patch does not apply"; exit 2; }
 VERIF_SEED=${VERIF_SEED:-0} ./check $prop --tier $tier > /tmp/try_seed.out 2>&1; rc=$?
 git -C /repo checkout -- .
+# evidence and regenerated models written by a run against a seeded tree are not kept
+git -C /verif checkout -- evidence lean/KyroModel/Config/Generated.lean lean/KyroModel/Simd lean/KyroModel/Conc/LockGraphGenerated.lean 2>/dev/null
 echo "rc=$rc"; grep "^VIOLATION" /tmp/try_seed.out | cut -c1-200
